@@ -304,6 +304,21 @@ def gen(tier: str, seed: int) -> list[Case]:
         style = []
         cases.append(Case(cid=f"c09-{i}-off", files=files, opts=list(style), meta={"pair": i, "nc": False, **info}, reach=REACH))
         cases.append(Case(cid=f"c09-{i}-on", files=files, opts=[*style, "-nc"], meta={"pair": i, "nc": True, **info}, reach=REACH))
+    # whole packages of the general generator: several packages with re-exports of every form (per-declaration stub files,
+    # moved modules), multi-word module and package names, classes of other libraries
+    from .. import pkggen as pg
+    from . import c10
+
+    cfg = c10.make_cfg(gated)
+    cfg.p_multiword = 0.5
+    cfg.p_reexport = 0.6
+    rng2 = rng_for(seed, PID, "general-packages")
+    for j in range(6 if tier == "quick" else 250):
+        pkg = pg.random_pkg(rng2, cfg)
+        files = pg.render(pkg)
+        info = {"shapes": ["general-package"], "modules": [m.qname for m in pkg.modules][:6]}
+        cases.append(Case(cid=f"c09-g{j}-off", files=files, opts=[], meta={"pair": f"g{j}", "nc": False, **info}, reach=REACH))
+        cases.append(Case(cid=f"c09-g{j}-on", files=files, opts=["-nc"], meta={"pair": f"g{j}", "nc": True, **info}, reach=REACH))
     return cases
 
 
